@@ -1,3 +1,4 @@
 pub mod common;
 pub mod wincon_sys;
 pub mod parser_sys;
+pub mod strip_sys;
